@@ -284,6 +284,23 @@ def build_records(ctx, scenarios_small, scenarios_perm):
         b['pad%d' % j] = 1
       pb.append(b)
     recs.append(_check_record(c, 'gcdn1', book4, pb, 'n1-%04d' % i, offset=1, k=k, info='N-1_FACTORS'))
+    # the same batch with a bound that is NOT a power of two: the gcd of key j (by its definition, math.gcd), one less, one more
+    vals = [book4.value(b) for b in pb]          # n_i - 1
+    if len(pb) >= 2:
+      import math
+      j = rng.randrange(len(pb))
+      others = 1
+      for t_, v in enumerate(vals):
+        if v != vals[j]:
+          others *= v
+      gj = math.gcd(int(vals[j]), int(others)) if others != 1 else 0
+      if gj > 4:
+        for off in (-1, 0, 1):
+          c2 = rsa_aggregate_checks.CheckGCDN1(gcd_bound=gj + off)
+          r2 = _check_record(c2, 'gcdn1x', book4, pb, 'n1x-%04d-%d' % (i, off + 1), offset=1, info='N-1_FACTORS')
+          r2['args']['ref'] = j + 1
+          r2['args']['off'] = off
+          recs.append(r2)
   return recs
 
 
